@@ -192,7 +192,7 @@ Definition g6_destroy : list stmt :=
 
 (* scenario 9: muggle_sowr_memory_pool_init, muggle_sowr_memory_pool_destroy
      0 = ->->blocks
-     note: muggle_sowr_memory_pool_init: undecided scalar condition `block_size <= 0` guards no resource statement: skipped
+     note: muggle_sowr_memory_pool_init: undecided scalar condition `block_size64 > 4294967295 / capacity` guards no resource statement: skipped
      note: muggle_sowr_memory_pool_init: undecided scalar condition `capacity <= 0` guards no resource statement: skipped
 *)
 Definition g9_pre : list stmt :=
@@ -209,7 +209,7 @@ Definition g9_destroy : list stmt :=
 (* scenario 10: muggle_ts_memory_pool_init, muggle_ts_memory_pool_destroy
      0 = ->->data
      1 = ->->ptrs
-     note: muggle_ts_memory_pool_init: undecided scalar condition `block_size <= 0` guards no resource statement: skipped
+     note: muggle_ts_memory_pool_init: undecided scalar condition `block_size64 > 4294967295 / capacity` guards no resource statement: skipped
      note: muggle_ts_memory_pool_init: undecided scalar condition `capacity <= 0` guards no resource statement: skipped
 *)
 Definition g10_pre : list stmt :=
@@ -231,6 +231,7 @@ Definition g10_destroy : list stmt :=
 
 (* scenario 11: muggle_ring_memory_pool_init, muggle_ring_memory_pool_destroy
      0 = blocks
+     note: muggle_ring_memory_pool_init: undecided scalar condition `block_size64 > 4294967295 / capacity` guards no resource statement: skipped
      note: muggle_ring_memory_pool_init: undecided scalar condition `capacity < 2` guards no resource statement: skipped
 *)
 Definition g11_pre : list stmt :=
